@@ -11,18 +11,22 @@ pub struct CheckedReader {
     pos: usize,
     end: usize,
     pub log: Rc<RefCell<Vec<String>>>,
+    /// reader operations issued + octets handed out by bytes(): the cost measure of Model/Cost.v
+    pub cost: Rc<std::cell::Cell<u64>>,
 }
 
 impl CheckedReader {
     pub fn new(data: Vec<u8>) -> Self {
         let end = data.len();
-        Self { data: Rc::new(data), pos: 0, end, log: Rc::new(RefCell::new(Vec::new())) }
+        Self { data: Rc::new(data), pos: 0, end, log: Rc::new(RefCell::new(Vec::new())), cost: Rc::new(std::cell::Cell::new(0)) }
     }
     fn rem(&self) -> usize { self.end - self.pos }
+    fn tick(&self, n: u64) { self.cost.set(self.cost.get() + n); }
     fn violation(&self, what: &str, n: usize) {
         self.log.borrow_mut().push(format!("{}({})@rem={}", what, n, self.rem()));
     }
     fn fixed(&mut self, what: &str, n: usize) -> u64 {
+        self.tick(1);
         if self.rem() < n {
             self.violation(what, n);
             self.pos = self.end;
@@ -36,17 +40,20 @@ impl CheckedReader {
 }
 
 impl Reader<Vec<u8>> for CheckedReader {
-    fn is_empty(&self) -> bool { self.rem() == 0 }
-    fn len(&self) -> usize { self.rem() }
+    fn is_empty(&self) -> bool { self.tick(1); self.rem() == 0 }
+    fn len(&self) -> usize { self.tick(1); self.rem() }
     fn subreader(&mut self, length: usize) -> Self {
+        self.tick(1);
         let mut n = length;
         if n > self.rem() { self.violation("subreader", length); n = self.rem(); }
-        let sub = Self { data: self.data.clone(), pos: self.pos, end: self.pos + n, log: self.log.clone() };
+        let sub = Self { data: self.data.clone(), pos: self.pos, end: self.pos + n, log: self.log.clone(), cost: self.cost.clone() };
         self.pos += n;
         sub
     }
     fn bytes(&mut self, length: usize) -> Option<Vec<u8>> {
+        self.tick(1);
         if length > self.rem() { return None; }
+        self.tick(length as u64);
         let r = self.data[self.pos..self.pos + length].to_vec();
         self.pos += length;
         Some(r)
@@ -56,6 +63,7 @@ impl Reader<Vec<u8>> for CheckedReader {
     unsafe fn read_u32_be_unchecked(&mut self) -> u32 { self.fixed("read_u32", 4) as u32 }
     unsafe fn read_u64_be_unchecked(&mut self) -> u64 { self.fixed("read_u64", 8) }
     fn skip_bytes(&mut self, length: usize) {
+        self.tick(1);
         let mut n = length;
         if n > self.rem() { self.violation("skip_bytes", length); n = self.rem(); }
         self.pos += n;
